@@ -21,14 +21,50 @@ def _root():
     return os.environ.get("VERIF_REPO", "/repo")
 
 
+_GEN_CACHE = {}
+
+
 def regenerate(which, mode):
-    env = dict(os.environ)
-    here = os.path.dirname(os.path.dirname(os.path.dirname(os.path.abspath(__file__))))
-    env["PYTHONPATH"] = f"{here}:{_root()}/hugr-py/src"
-    out = subprocess.run([sys.executable, "-m", "vrf.oracle.gen_schema", which, mode], env=env, capture_output=True, text=True, timeout=300)
-    if out.returncode != 0:
-        raise RuntimeError(out.stderr[-2000:])
-    return json.loads(out.stdout)
+    """Run the repository's own scripts/generate_schema.py (all four documents, in the script's order, in ONE
+    process: the rebuilds mutate shared model configuration, and the published files come out of exactly this
+    sequence) into a scratch directory and return the document for (which, mode) plus the version strings."""
+    import shutil
+    import tempfile
+    root = _root()
+    if root not in _GEN_CACHE:
+        env = dict(os.environ)
+        here = os.path.dirname(os.path.dirname(os.path.dirname(os.path.abspath(__file__))))
+        env["PYTHONPATH"] = f"{root}/hugr-py/src"
+        tmp = tempfile.mkdtemp(prefix="c17schema.")
+        try:
+            script = os.path.join(root, "scripts/generate_schema.py")
+            if not os.path.exists(script):
+                script = "/repo/scripts/generate_schema.py"
+            out = subprocess.run([sys.executable, script, tmp], env=env, capture_output=True, text=True, timeout=600)
+            if out.returncode != 0:
+                raise RuntimeError("generate_schema.py failed: " + out.stderr[-2000:])
+            docs = {}
+            for f in os.listdir(tmp):
+                docs[f] = json.load(open(os.path.join(tmp, f)))
+            env["PYTHONPATH"] = f"{here}:{root}/hugr-py/src"
+            ver = subprocess.run([sys.executable, "-c",
+                                  "import json;from hugr._serialization.serial_hugr import SerialHugr, serialization_version;"
+                                  "from hugr._serialization.extension import Extension, Package;from hugr._serialization.testing_hugr import TestingHugr;"
+                                  "print(json.dumps([serialization_version(), SerialHugr.get_version(), TestingHugr.get_version(), Extension.get_version(), Package.get_version()]))"],
+                                 env=env, capture_output=True, text=True, timeout=120)
+            if ver.returncode != 0:
+                raise RuntimeError(ver.stderr[-1500:])
+            _GEN_CACHE[root] = (docs, json.loads(ver.stdout))
+        finally:
+            shutil.rmtree(tmp, ignore_errors=True)
+    docs, versions = _GEN_CACHE[root]
+    prefix = ("testing_hugr_schema" if which == "testing" else "hugr_schema") + ("_strict" if mode == "strict" else "")
+    version = versions[0]
+    name = f"{prefix}_{version}.json"
+    if name not in docs:
+        raise RuntimeError(f"generate_schema.py did not write {name}: wrote {sorted(docs)}")
+    return {"version": version, "serialization_version": versions[0], "ext_version": versions[3], "package_version": versions[4],
+            "models_versions": versions, "schema": docs[name]}
 
 
 def schema_equivalence(prefix, which, mode, known=None, seed=0):
@@ -44,7 +80,7 @@ def schema_equivalence(prefix, which, mode, known=None, seed=0):
         res.violations.append({"clause": "published_file_for_version_exists", "inputs": {"file": path, "version": version},
                                "detail": f"models report schema version {version!r} but {path} does not exist", "known": None})
         return res
-    if not (gen["serialization_version"] == gen["ext_version"] == gen["package_version"] == version):
+    if len(set(gen["models_versions"])) != 1:
         res.verdict = "violated"
         res.violations.append({"clause": "one_version_string", "inputs": gen | {"schema": None}, "detail": "version strings of the models disagree", "known": None})
     pub = json.load(open(path))
@@ -104,7 +140,8 @@ def _replay(data):
 
 
 lemma("C17", name="schema_equivalence", kind="custom", params=FILES,
-      bounds="every $defs entry of the four published schema files vs the schema regenerated from the current models (strict and lax configs)",
+      bounds="every $defs entry of the four published schema files vs the documents written by the repository's own scripts/generate_schema.py "
+             "from the current models (all four configurations, in the script's order, in one process)",
       outside="pydantic's own fidelity between model and generated schema (the definitional bridge the statement uses); 'title'/'description' annotations",
       unbounded="documents of any size and nesting depth (per-definition equivalence + coinduction over $ref)",
       opts={"replay": _replay})(schema_equivalence)
